@@ -11,6 +11,7 @@ import (
 	"fmt"
 	"path/filepath"
 	"regexp"
+	"slices"
 	"strings"
 )
 
@@ -188,6 +189,12 @@ func excludeT(t *Table, pattern string) (err error) {
 			}
 			for _, idx := range c.Indexes {
 				ex[idx] = struct{}{}
+			}
+			// Not all drivers link the columns back to their indexes.
+			for _, idx := range t.Indexes {
+				if slices.ContainsFunc(idx.Parts, func(p *IndexPart) bool { return p.C == c }) {
+					ex[idx] = struct{}{}
+				}
 			}
 			for _, fk := range c.ForeignKeys {
 				ef[fk] = struct{}{}
